@@ -1,13 +1,14 @@
 (* DynReenc.v: whatever the dynamic encoder accepts, the dynamic decoder reads back and
    re-encodes to the same bytes (C18), outside the three known classes. *)
-From PV Require Import Base MachineInt VarintParams GenArith GenLoops GenPanicArms Varint Utf8 DataModel De Ser Schema SchemaDecl SchemaFmt SchemaConv SchemaOps Conform WireFormat Dyn JsonOf.
-From PV Require Import BaseFacts VarintFacts VarintCore ZigZagFacts Utf8Facts SerFacts DeFacts SchemaFacts DynFacts DynAgree DynAgreeDe.
+From PV Require Import Base MachineInt VarintParams GenArith GenLoops GenPanicArms Varint Utf8 DataModel De Ser Schema SchemaDecl SchemaFmt SchemaConv SchemaOps Conform WireFormat Dyn JsonOf DynSizeDefs.
+From PV Require Import BaseFacts VarintFacts VarintCore ZigZagFacts Utf8Facts SerFacts DeFacts SchemaFacts DynFacts DynAgree DynAgreeDe DynSerMin.
 From Coq Require Import Lia.
 Open Scope N_scope.
 
 Section Reenc.
   Variable int_to_f64 : Z -> N.
   Variable narrow widen : N -> N.
+  Variable lim : bool.             (* true: arrays of at most 65536 elements; false: any length, sequence elements of at least one byte *)
   (* what the statement needs from the host's float unit *)
   Hypothesis narrow_widen : forall b, b < 2 ^ 32 -> f32_finite b = true -> narrow (widen b) = b.
   Hypothesis narrow_range : forall b, narrow b < 2 ^ 32.
@@ -16,7 +17,7 @@ Section Reenc.
   Let DE := dyn_de widen.
 
   Definition reenc_at (s : schema) : Prop :=
-    forall j bs rest, json_wf j = true -> SER s j = DOk bs -> bytes_ok rest ->
+    forall j bs rest, json_wf_g lim j = true -> SER s j = DOk bs -> bytes_ok rest ->
     bytes_ok bs /\ exists j', DE s (bs ++ rest) = DOk (j', rest) /\ SER s j' = DOk bs.
 
   Lemma uvar_bytes t z : is_vty t -> (0 <= z < 2 ^ bits t)%Z -> uvar (std_writer t) z = spec_varint (Z.to_N z) /\ bytes_ok (uvar (std_writer t) z).
@@ -127,26 +128,28 @@ Section Reenc.
     - (* f64 *) destruct (as_f64 int_to_f64 j) as [b|] eqn:Ef; [|discriminate Hs]. replace bs with (le_bytes 8 b) by congruence. clear Hs.
       assert (Hb : b < 2 ^ 64 /\ f64_finite b = true).
       { destruct j; cbn [as_f64] in Ef; try discriminate Ef; injection Ef as <-; [apply int_to_f64_finite|].
-        cbn [json_wf] in Hwf. apply andb_prop in Hwf as [H1 H2]. apply N.ltb_lt in H1. split; assumption. }
+        cbn [json_wf_g] in Hwf. apply andb_prop in Hwf as [H1 H2]. apply N.ltb_lt in H1. split; assumption. }
       destruct Hb as [Hlt Hfin].
       split; [apply le_bytes_ok|]. exists (JFloat b). cbn [de_prim ser_prim as_f64].
       assert (E8 : 8 = N.of_nat (length (le_bytes 8 b))) by (rewrite le_bytes_length; reflexivity).
       rewrite E8 at 1. rewrite take_n_app. cbn [dbind]. rewrite of_le_bytes_le_bytes. change (256 ^ N.of_nat 8) with (2 ^ 64).
       rewrite N.mod_small by exact Hlt. rewrite Hfin. split; reflexivity.
     - (* char *) destruct j; try discriminate Hs. destruct (utf8_chars bs0) as [[|c [|? ?]]|] eqn:Ec; try discriminate Hs.
-      injection Hs as <-. cbn [json_wf] in Hwf. apply andb_prop in Hwf as [Hwf Hl]. apply andb_prop in Hwf as [Hb Hu].
+      injection Hs as <-. cbn [json_wf_g] in Hwf. apply andb_prop in Hwf as [Hwf Hl]. apply andb_prop in Hwf as [Hb Hu].
       apply N.ltb_lt in Hl. apply bytes_okb_spec in Hb. rewrite len_prefix_spec by exact Hl.
       split; [apply bytes_ok_app; split; [apply spec_varint_bytes_ok|exact Hb]|].
       exists (JStr bs0). cbn [de_prim ser_prim]. rewrite <- app_assoc, de_str_roundtrip by assumption. cbn [dbind]. rewrite Ec.
       split; [reflexivity|]. rewrite len_prefix_spec by exact Hl. reflexivity.
     - (* string *) destruct j; try discriminate Hs. injection Hs as <-.
-      cbn [json_wf] in Hwf. apply andb_prop in Hwf as [Hwf Hl]. apply andb_prop in Hwf as [Hb Hu].
+      cbn [json_wf_g] in Hwf. apply andb_prop in Hwf as [Hwf Hl]. apply andb_prop in Hwf as [Hb Hu].
       apply N.ltb_lt in Hl. apply bytes_okb_spec in Hb. rewrite len_prefix_spec by exact Hl.
       split; [apply bytes_ok_app; split; [apply spec_varint_bytes_ok|exact Hb]|].
       exists (JStr bs0). cbn [de_prim ser_prim]. rewrite <- app_assoc, de_str_roundtrip by assumption. cbn [dbind].
       split; [reflexivity|]. rewrite len_prefix_spec by exact Hl. reflexivity.
     - (* byte array *) destruct j; try discriminate Hs. destruct (bytes_loop_inv l [] bs Hs) as (bytes & -> & Hok & Ebs).
-      cbn [json_wf] in Hwf. apply andb_prop in Hwf as [_ Hl]. apply N.leb_le in Hl. rewrite map_length in Hl.
+      cbn [json_wf_g] in Hwf. apply andb_prop in Hwf as [_ Hl].
+      assert (Hl' : N.of_nat (length bytes) < 2 ^ 64) by (rewrite map_length in Hl; destruct lim; [apply N.leb_le in Hl|apply N.ltb_lt in Hl]; lia).
+      clear Hl. rename Hl' into Hl.
       apply (scalar_lift PByteArray (NBytes bytes) _ bs rest eq_refl); try assumption; try discriminate; try reflexivity.
       cbn [prim_conforms erase prim_ty has_type]. apply andb_true_intro. split; [apply bytes_okb_spec; exact Hok|apply N.ltb_lt; lia].
     - (* unit *) injection Hs as <-. split; [constructor|]. exists JNull. split; reflexivity.
@@ -269,7 +272,7 @@ Section Reenc.
 
   (* ---- sequences of sub-values ---- *)
   Lemma each_reenc t : reenc_at t -> forall l bs rest,
-    forallb json_wf l = true -> ser_each (SER t) l = DOk bs -> bytes_ok rest ->
+    forallb (json_wf_g lim) l = true -> ser_each (SER t) l = DOk bs -> bytes_ok rest ->
     bytes_ok bs /\ exists l', length l' = length l /\
       (forall fuel acc, (length l <= fuel)%nat -> de_repeat fuel (DE t) (N.of_nat (length l)) acc (bs ++ rest) = DOk (rev acc ++ l', rest)) /\
       ser_each (SER t) l' = DOk bs.
@@ -293,7 +296,7 @@ Section Reenc.
   Qed.
 
   Lemma zip_reenc ts : Forall reenc_at ts -> forall l bs rest, length l = length ts ->
-    forallb json_wf l = true -> ser_zip SER ts l = DOk bs -> bytes_ok rest ->
+    forallb (json_wf_g lim) l = true -> ser_zip SER ts l = DOk bs -> bytes_ok rest ->
     bytes_ok bs /\ exists l', length l' = length ts /\ de_all DE ts (bs ++ rest) = DOk (l', rest) /\ ser_zip SER ts l' = DOk bs.
   Proof.
     induction 1 as [|t ts Ht _ IH]; intros [|j r] bs rest Hl Hw Hs Hr; try discriminate Hl.
@@ -310,7 +313,7 @@ Section Reenc.
   Qed.
 
   Lemma snd_zip_reenc (fs : list (str * schema)) : Forall (fun f => reenc_at (snd f)) fs -> forall l bs rest, length l = length fs ->
-    forallb json_wf l = true -> ser_snd_zip SER fs l = DOk bs -> bytes_ok rest ->
+    forallb (json_wf_g lim) l = true -> ser_snd_zip SER fs l = DOk bs -> bytes_ok rest ->
     bytes_ok bs /\ exists l', length l' = length fs /\ de_snd_all DE fs (bs ++ rest) = DOk (l', rest) /\ ser_snd_zip SER fs l' = DOk bs.
   Proof.
     induction 1 as [|t ts Ht _ IH]; intros [|j r] bs rest Hl Hw Hs Hr; try discriminate Hl.
@@ -327,7 +330,7 @@ Section Reenc.
   Qed.
 
   Lemma fields_reenc (fs : list (str * schema)) : Forall (fun f => reenc_at (snd f)) fs -> forall obj bs rest,
-    (forall k j, In (k, j) obj -> json_wf j = true) -> ser_fields SER fs obj = DOk bs -> bytes_ok rest ->
+    (forall k j, In (k, j) obj -> json_wf_g lim j = true) -> ser_fields SER fs obj = DOk bs -> bytes_ok rest ->
     bytes_ok bs /\ exists xs : list (list byte * json), map fst xs = map fst fs /\
       (forall acc, de_fields DE fs acc (bs ++ rest) = DOk (fold_left ins_kj xs acc, rest)) /\
       (forall obj', (forall x, In x xs -> obj_get (fst x) obj' = Some (snd x)) -> ser_fields SER fs obj' = DOk bs).
@@ -348,7 +351,7 @@ Section Reenc.
   Qed.
 
   Definition kv_wf (kv : list byte * json) : bool :=
-    bytes_okb (fst kv) && utf8_valid (fst kv) && (N.of_nat (length (fst kv)) <? 2 ^ 64) && json_wf (snd kv).
+    bytes_okb (fst kv) && utf8_valid (fst kv) && (N.of_nat (length (fst kv)) <? 2 ^ 64) && json_wf_g lim (snd kv).
   Lemma entries_reenc t : reenc_at t -> forall obj bs rest,
     forallb kv_wf obj = true -> ser_entries (SER t) obj = DOk bs -> bytes_ok rest ->
     bytes_ok bs /\ exists obj', map fst obj' = map fst obj /\
@@ -386,20 +389,20 @@ Section Reenc.
   (* ---- struct and variant bodies ---- *)
   Lemma data_reenc k (fs : list (str * schema)) : Forall (fun f => reenc_at (snd f)) fs ->
     (k = DStruct -> names_distinct (map fst fs) = true) -> forall j bs rest,
-    json_wf j = true -> ser_data SER k fs j = DOk bs -> bytes_ok rest ->
+    json_wf_g lim j = true -> ser_data SER k fs j = DOk bs -> bytes_ok rest ->
     bytes_ok bs /\ exists j', de_data DE k fs (bs ++ rest) = DOk (j', rest) /\ ser_data SER k fs j' = DOk bs.
   Proof.
     intros Hfs Hd j bs rest Hw Hs Hr. destruct k; cbn [ser_data de_data] in *.
     - injection Hs as <-. split; [constructor|]. exists JNull. split; reflexivity.
     - destruct fs as [|f [|? ?]]; try discriminate Hs. apply Forall_inv in Hfs. apply (Hfs j bs rest Hw Hs Hr).
     - destruct j as [| | | | |l|]; try discriminate Hs. destruct (Nat.eqb_spec (length l) (length fs)) as [El|]; try discriminate Hs.
-      cbn [json_wf] in Hw. apply andb_prop in Hw as [Hw _].
+      cbn [json_wf_g] in Hw. apply andb_prop in Hw as [Hw _].
       destruct (snd_zip_reenc fs Hfs l bs rest El Hw Hs Hr) as (Hb & l' & Hl' & Hde & Hse).
       split; [exact Hb|]. exists (JArr l'). rewrite Hde. cbn [dbind]. split; [reflexivity|].
       rewrite Hl', Nat.eqb_refl. exact Hse.
     - destruct j as [| | | | | |obj]; try discriminate Hs. destruct (Nat.eqb_spec (length obj) (length fs)) as [El|]; try discriminate Hs.
-      cbn [json_wf] in Hw. apply andb_prop in Hw as [Hw _]. apply andb_prop in Hw as [Hw _].
-      assert (Hwj : forall k j, In (k, j) obj -> json_wf j = true).
+      cbn [json_wf_g] in Hw. apply andb_prop in Hw as [Hw _]. apply andb_prop in Hw as [Hw _].
+      assert (Hwj : forall k j, In (k, j) obj -> json_wf_g lim j = true).
       { intros k0 j0 Hin. rewrite forallb_forall in Hw. specialize (Hw _ Hin). cbn [fst snd] in Hw.
         apply andb_prop in Hw as [_ Hw]. exact Hw. }
       destruct (fields_reenc fs Hfs obj bs rest Hwj Hs Hr) as (Hb & xs & Hx & Hde & Hse).
@@ -411,8 +414,8 @@ Section Reenc.
   Qed.
 
   Lemma lift_fields (P : schema -> Prop) (fs : list (str * schema)) :
-    Forall (fun f => schema_wf (snd f) = true -> reenc_scope (snd f) = true -> reenc_at (snd f)) fs ->
-    forallb (fun f => schema_wf (snd f)) fs = true -> forallb (fun f => reenc_scope (snd f)) fs = true ->
+    Forall (fun f => schema_wf (snd f) = true -> reenc_scope_g lim (snd f) = true -> reenc_at (snd f)) fs ->
+    forallb (fun f => schema_wf (snd f)) fs = true -> forallb (fun f => reenc_scope_g lim (snd f)) fs = true ->
     Forall (fun f => reenc_at (snd f)) fs.
   Proof.
     induction 1 as [|f r Hf _ IH]; intros Hw Hs; [constructor|]. cbn [forallb] in Hw, Hs.
@@ -466,11 +469,20 @@ Section Reenc.
     lia.
   Qed.
 
-  Theorem reenc : forall s, schema_wf s = true -> reenc_scope s = true -> reenc_at s.
+  (* as many bytes as elements at least, when no element of the schema can be empty *)
+  Lemma ser_each_fit t l a : 1 <= dmin t -> ser_each (SER t) l = DOk a -> (length l <= length a)%nat.
+  Proof.
+    intros Hm. revert a. induction l as [|j r IH]; intros a H; cbn [ser_each] in H; [injection H as <-; cbn; lia|].
+    destruct (SER t j) as [x| | |] eqn:Ex; try discriminate H. cbn [dbind] in H.
+    destruct (ser_each (SER t) r) as [b| | |]; try discriminate H. cbn [dbind] in H. injection H as <-.
+    specialize (IH b eq_refl). pose proof (ser_min int_to_f64 narrow t j x Ex). rewrite app_length. cbn [length]. lia.
+  Qed.
+
+  Theorem reenc : forall s, schema_wf s = true -> reenc_scope_g lim s = true -> reenc_at s.
   Proof.
     induction s as [p|t IH|t IH|ts IH|k v IHk IHv|n k fs IH|n vs IH] using schema_ind'; intros Hwf Hsc.
     - apply prim_reenc.
-    - cbn [schema_wf reenc_scope] in Hwf, Hsc. apply andb_prop in Hsc as [Hnn Hsc]. apply negb_true_iff in Hnn.
+    - cbn [schema_wf reenc_scope_g] in Hwf, Hsc. apply andb_prop in Hsc as [Hnn Hsc]. apply negb_true_iff in Hnn.
       specialize (IH Hwf Hsc). intros j bs rest Hw Hs Hr. unfold SER in Hs. cbn [dyn_ser] in Hs. rewrite ser_no_panic_arm in Hs. fold SER in Hs.
       assert (Hnone : DE (SOption t) (0 :: rest) = DOk (JNull, rest)).
       { unfold DE. cbn [dyn_de]. rewrite de_no_panic_arm. reflexivity. }
@@ -487,32 +499,35 @@ Section Reenc.
       + destruct (IH j a rest Hw Ea Hr) as (Ha & j' & Hde & Hse).
         split; [constructor; [reflexivity|exact Ha]|]. exists j'. rewrite Hsome. split; [exact Hde|].
         rewrite Hser; [rewrite Hse; reflexivity|]. eapply de_non_null; eassumption.
-    - cbn [schema_wf reenc_scope] in Hwf, Hsc. specialize (IH Hwf Hsc). intros j bs rest Hw Hs Hr.
+    - cbn [schema_wf reenc_scope_g] in Hwf, Hsc. apply andb_prop in Hsc as [Hsc Hnz]. specialize (IH Hwf Hsc). intros j bs rest Hw Hs Hr.
       unfold SER in Hs. cbn [dyn_ser] in Hs. rewrite ser_no_panic_arm in Hs. fold SER in Hs.
-      destruct j as [| | | | |l|]; try discriminate Hs. cbn [json_wf] in Hw. apply andb_prop in Hw as [Hw Hlen]. apply N.leb_le in Hlen.
+      destruct j as [| | | | |l|]; try discriminate Hs. cbn [json_wf_g] in Hw. apply andb_prop in Hw as [Hw Hlen].
       destruct (ser_each (SER t) l) as [a| | |] eqn:Ea; try discriminate Hs. cbn [dbind] in Hs. injection Hs as <-.
       destruct (each_reenc t IH l a rest Hw Ea Hr) as (Ha & l' & Hl' & Hde & Hse).
       assert (Hok : bytes_ok (a ++ rest)) by (apply bytes_ok_app; split; assumption).
-      destruct (dusize_len (length l) (a ++ rest) ltac:(lia) Hok) as [Hp Hdu].
+      assert (Hl64 : N.of_nat (length l) < 2 ^ 64) by (destruct lim; [apply N.leb_le in Hlen|apply N.ltb_lt in Hlen]; lia).
+      destruct (dusize_len (length l) (a ++ rest) Hl64 Hok) as [Hp Hdu].
       split; [apply bytes_ok_app; split; assumption|]. exists (JArr l'). split.
       + unfold DE. cbn [dyn_de]. rewrite de_no_panic_arm. fold DE. rewrite <- app_assoc, Hdu. cbn [dbind].
-        rewrite Hde; [reflexivity|]. rewrite <- (Nat2N.id (length l)) at 1. apply loop_fuel_enough. left. exact Hlen.
+        rewrite Hde; [reflexivity|]. rewrite <- (Nat2N.id (length l)) at 1. apply loop_fuel_enough.
+        destruct lim; [left; apply N.leb_le; exact Hlen|right]. cbn [orb] in Hnz. apply N.leb_le in Hnz.
+        pose proof (ser_each_fit t l a Hnz Ea). rewrite app_length. lia.
       + unfold SER. cbn [dyn_ser]. rewrite ser_no_panic_arm. fold SER. rewrite Hse, Hl'. reflexivity.
-    - cbn [schema_wf reenc_scope] in Hwf, Hsc.
+    - cbn [schema_wf reenc_scope_g] in Hwf, Hsc.
       assert (Hts : Forall reenc_at ts).
       { clear -IH Hwf Hsc. induction IH as [|t r Ht _ IHr]; [constructor|]. cbn [forallb] in Hwf, Hsc.
         apply andb_prop in Hwf as [W1 W2]. apply andb_prop in Hsc as [S1 S2]. constructor; [apply Ht; assumption|apply IHr; assumption]. }
       intros j bs rest Hw Hs Hr. unfold SER in Hs. cbn [dyn_ser] in Hs. rewrite ser_no_panic_arm in Hs. fold SER in Hs.
       destruct j as [| | | | |l|]; try discriminate Hs. destruct (Nat.eqb_spec (length l) (length ts)) as [El|]; try discriminate Hs.
-      cbn [json_wf] in Hw. apply andb_prop in Hw as [Hw _].
+      cbn [json_wf_g] in Hw. apply andb_prop in Hw as [Hw _].
       destruct (zip_reenc ts Hts l bs rest El Hw Hs Hr) as (Hb & l' & Hl' & Hde & Hse).
       split; [exact Hb|]. exists (JArr l'). split.
       + unfold DE. cbn [dyn_de]. rewrite de_no_panic_arm. fold DE. rewrite Hde. reflexivity.
       + unfold SER. cbn [dyn_ser]. rewrite ser_no_panic_arm. fold SER. rewrite Hl', Nat.eqb_refl. exact Hse.
-    - cbn [schema_wf reenc_scope] in Hwf, Hsc. apply andb_prop in Hwf as [_ Hwv]. specialize (IHv Hwv Hsc).
+    - cbn [schema_wf reenc_scope_g] in Hwf, Hsc. apply andb_prop in Hwf as [_ Hwv]. specialize (IHv Hwv Hsc).
       intros j bs rest Hw Hs Hr. unfold SER in Hs. cbn [dyn_ser] in Hs. rewrite ser_no_panic_arm in Hs. fold SER in Hs.
       destruct k as [[]| | | | | |]; try discriminate Hs.
-      destruct j as [| | | | | |obj]; try discriminate Hs. cbn [json_wf] in Hw. apply andb_prop in Hw as [Hw Hlen]. apply N.ltb_lt in Hlen.
+      destruct j as [| | | | | |obj]; try discriminate Hs. cbn [json_wf_g] in Hw. apply andb_prop in Hw as [Hw Hlen]. apply N.ltb_lt in Hlen.
       apply andb_prop in Hw as [Hw Hasc].
       destruct (ser_entries (SER v) obj) as [a| | |] eqn:Ea; try discriminate Hs. cbn [dbind] in Hs. injection Hs as <-.
       destruct (entries_reenc v IHv obj a rest Hw Ea Hr) as (Ha & obj' & Hk & Hde & Hse).
@@ -526,14 +541,14 @@ Section Reenc.
         pose proof (ser_entries_fit (SER v) obj a Ea). rewrite app_length. lia.
       + unfold SER. cbn [dyn_ser]. rewrite ser_no_panic_arm. fold SER. rewrite Hse. cbn [dbind].
         rewrite <- (map_length fst obj'), Hk, map_length. reflexivity.
-    - cbn [schema_wf reenc_scope] in Hwf, Hsc. apply andb_prop in Hwf as [_ Hwf]. unfold body_ok in Hsc. apply andb_prop in Hsc as [Hsc Hd].
+    - cbn [schema_wf reenc_scope_g] in Hwf, Hsc. apply andb_prop in Hwf as [_ Hwf]. unfold body_ok in Hsc. apply andb_prop in Hsc as [Hsc Hd].
       pose proof (lift_fields (fun _ => True) fs IH Hwf Hsc) as Hfs.
       intros j bs rest Hw Hs Hr. unfold SER in Hs. cbn [dyn_ser] in Hs. rewrite ser_no_panic_arm in Hs. fold SER in Hs.
       destruct (data_reenc k fs Hfs ltac:(intros ->; exact Hd) j bs rest Hw Hs Hr) as (Hb & j' & Hde & Hse).
       split; [exact Hb|]. exists j'. split.
       + unfold DE. cbn [dyn_de]. rewrite de_no_panic_arm. fold DE. exact Hde.
       + unfold SER. cbn [dyn_ser]. rewrite ser_no_panic_arm. fold SER. exact Hse.
-    - cbn [schema_wf reenc_scope] in Hwf, Hsc. apply andb_prop in Hsc as [Hsc Hcnt]. apply N.ltb_lt in Hcnt.
+    - cbn [schema_wf reenc_scope_g] in Hwf, Hsc. apply andb_prop in Hsc as [Hsc Hcnt]. apply N.ltb_lt in Hcnt.
       assert (Hbody : forall i name k fs, nth_error vs i = Some (name, k, fs) ->
                 N.of_nat i < 2 ^ 64 /\ (i < length vs)%nat /\ Forall (fun f => reenc_at (snd f)) fs /\ (k = DStruct -> names_distinct (map fst fs) = true)).
       { intros i name k fs Hn. assert (Hi : (i < length vs)%nat) by (apply nth_error_Some; congruence).
@@ -557,7 +572,7 @@ Section Reenc.
       + rewrite ser_enum_obj in Hs. destruct (find_variant name vs) as [[[i k] fs]|] eqn:Ef; try discriminate Hs.
         destruct (ser_data SER k fs payload) as [a| | |] eqn:Ea; try discriminate Hs. cbn [dbind] in Hs. injection Hs as <-.
         pose proof (find_variant_inv _ _ _ _ _ Ef) as Hn. destruct (Hbody _ _ _ _ Hn) as (Hi & Hlt & Hfs & Hd).
-        cbn [json_wf forallb fst snd] in Hw. apply andb_prop in Hw as [Hw _]. apply andb_prop in Hw as [Hw _].
+        cbn [json_wf_g forallb fst snd] in Hw. apply andb_prop in Hw as [Hw _]. apply andb_prop in Hw as [Hw _].
         apply andb_prop in Hw as [Hw _]. apply andb_prop in Hw as [_ Hwp].
         destruct (data_reenc k fs Hfs Hd payload a rest Hwp Ea Hr) as (Ha & j' & Hde & Hse).
         assert (Hok : bytes_ok (a ++ rest)) by (apply bytes_ok_app; split; assumption).
@@ -590,6 +605,51 @@ Theorem reencode int_to_f64 narrow widen :
   exists j', from_slice_dyn widen s bs = DOk j' /\ dyn_ser int_to_f64 narrow s j' = DOk bs.
 Proof.
   intros H1 H2 H3 s j bs Hwf Hsc Hw Hs.
-  destruct (reenc int_to_f64 narrow widen H1 H2 H3 s Hwf Hsc j bs [] Hw Hs ltac:(constructor)) as (_ & j' & Hde & Hse).
+  destruct (reenc int_to_f64 narrow widen true H1 H2 H3 s Hwf Hsc j bs [] Hw Hs ltac:(constructor)) as (_ & j' & Hde & Hse).
   exists j'. split; [|exact Hse]. unfold from_slice_dyn. rewrite app_nil_r in Hde. rewrite Hde. reflexivity.
+Qed.
+
+(* ... and without the bound on array lengths, for schemas whose sequence elements occupy at least
+   one byte each (reenc_scope_g false: the scope above, and 1 <= dmin t under every Seq) *)
+Theorem reencode_any_size int_to_f64 narrow widen :
+  (forall b, b < 2 ^ 32 -> f32_finite b = true -> narrow (widen b) = b) ->
+  (forall b, narrow b < 2 ^ 32) ->
+  (forall z, int_to_f64 z < 2 ^ 64 /\ f64_finite (int_to_f64 z) = true) ->
+  forall s j bs, schema_wf s = true -> reenc_scope_g false s = true -> json_wf_g false j = true ->
+  dyn_ser int_to_f64 narrow s j = DOk bs ->
+  exists j', from_slice_dyn widen s bs = DOk j' /\ dyn_ser int_to_f64 narrow s j' = DOk bs.
+Proof.
+  intros H1 H2 H3 s j bs Hwf Hsc Hw Hs.
+  destruct (reenc int_to_f64 narrow widen false H1 H2 H3 s Hwf Hsc j bs [] Hw Hs ltac:(constructor)) as (_ & j' & Hde & Hse).
+  exists j'. split; [|exact Hse]. unfold from_slice_dyn. rewrite app_nil_r in Hde. rewrite Hde. reflexivity.
+Qed.
+
+(* the scope of reencode_any_size, from the two predicates used elsewhere *)
+Lemma scope_any_size : forall s, reenc_scope s = true -> dno_zero s = true -> reenc_scope_g false s = true.
+Proof.
+  unfold reenc_scope.
+  induction s as [p|t IH|t IH|ts IH|k v IHk IHv|n k fs IH|n vs IH] using schema_ind'; intros Hs Hz;
+    cbn [reenc_scope_g dno_zero] in *.
+  - reflexivity.
+  - apply andb_prop in Hs as [Hn Hs]. rewrite Hn. cbn [andb]. apply IH; assumption.
+  - apply andb_prop in Hs as [Hs _]. apply andb_prop in Hz as [Hz Hm]. rewrite (IH Hs Hz). cbn [andb orb]. exact Hm.
+  - rewrite forallb_forall in *. rewrite Forall_forall in IH. intros t Ht. apply IH; auto.
+  - apply andb_prop in Hz as [_ Hz]. apply IHv; assumption.
+  - unfold body_ok in *. apply andb_prop in Hs as [Hs Hd]. rewrite Hd, andb_true_r.
+    rewrite forallb_forall in *. rewrite Forall_forall in IH. intros f Hf. apply IH; auto.
+  - apply andb_prop in Hs as [Hs Hc]. rewrite Hc, andb_true_r. rewrite forallb_forall in *. rewrite Forall_forall in IH.
+    intros v Hv. specialize (Hs v Hv). specialize (Hz v Hv). specialize (IH v Hv). unfold body_ok in *.
+    apply andb_prop in Hs as [Hs Hd]. rewrite Hd, andb_true_r.
+    rewrite forallb_forall in *. rewrite Forall_forall in IH. intros f Hf. apply IH; auto.
+Qed.
+
+Theorem reencode_any_size_nz int_to_f64 narrow widen :
+  (forall b, b < 2 ^ 32 -> f32_finite b = true -> narrow (widen b) = b) ->
+  (forall b, narrow b < 2 ^ 32) ->
+  (forall z, int_to_f64 z < 2 ^ 64 /\ f64_finite (int_to_f64 z) = true) ->
+  forall s j bs, schema_wf s = true -> reenc_scope s = true -> dno_zero s = true -> json_wf_g false j = true ->
+  dyn_ser int_to_f64 narrow s j = DOk bs ->
+  exists j', from_slice_dyn widen s bs = DOk j' /\ dyn_ser int_to_f64 narrow s j' = DOk bs.
+Proof.
+  intros H1 H2 H3 s j bs Hwf Hsc Hz. exact (reencode_any_size int_to_f64 narrow widen H1 H2 H3 s j bs Hwf (scope_any_size s Hsc Hz)).
 Qed.
